@@ -21,6 +21,16 @@ def check_case(case):
         spec = spec_from_forest(case["f"], case["pal"], case["pol"], case["srs"])
         spec = with_phases(spec, PH2, {case["who"]: case["pc"]})
         phys.solve_and_check(r, spec, ("C02",), case["ta"])
+    elif case["fam"] == "names":
+        r = Res()
+        spec = spec_from_forest(case["f"], case["pal"], 1, SRS)
+        ren = {}
+        for c, nm in zip(spec["comps"][1:], ["Audio Subsystem", "System aux", "Subsystem-2 total", "average load"]):
+            ren[c["n"]] = nm
+        for c in spec["comps"]:
+            c["n"] = ren.get(c["n"], c["n"])
+            c["p"] = [ren.get(q, q) for q in c["p"]]
+        phys.solve_and_check(r, spec, ("C02",), case["ta"])
     else:
         r = c01.check_case(dict(case, mirror=False), want=("C02",))
     # non-trivial: >= 2 lossy elements and a load counted as loss (DESIGN A.6)
@@ -55,6 +65,9 @@ def gen_cases(tier):
                 for c in spec["comps"]:
                     for pc in pc_options(c, PH2)[1:]:
                         yield dict(fam="phase", f=f, pal=pal, pol=1, srs=SRS, n=n, ta=-40.0, who=c["n"], pc=pc)
+        for n in (1, 2, 3):   # components whose NAMES contain the words used by the summary rows
+            for f in deep.iter_forests(n):
+                yield dict(fam="names", f=f, pal=pal, pol=1, srs=SRS, n=n, ta=25.0)
         from ..sysmodel import SIG_ZERO
         zero = Trees(SIG_ZERO[0], SIG_ZERO[1], max_one=("MX0",))
         for n in (1, 2, 3):
